@@ -13,6 +13,7 @@ Definition total_order {K : Type} (cmp : K -> K -> comparison) : Prop :=
 Section Refine.
   Variables K V : Type.
   Variable cmp : K -> K -> comparison.
+  Variable use_succ : bool -> bool -> bool.   (* Tree_Rem's donor rule: arbitrary *)
   Hypothesis cmp_eq : forall a b, cmp a b = Eq -> a = b.
   Hypothesis cmp_refl : forall a, cmp a a = Eq.
   Hypothesis cmp_anti : forall a b, cmp a b = CompOpp (cmp b a).
@@ -25,7 +26,7 @@ Section Refine.
   Notation a_set := (a_set K V cmp).
   Notation a_rem := (a_rem K V cmp).
   Notation a_set_all := (a_set_all K V cmp).
-  Notation t_step := (t_step K V cmp).
+  Notation t_step := (t_step K V cmp use_succ).
   Notation spec_step := (spec_step K V cmp).
 
   (* abstraction: the bindings in iteration order (descending keys) *)
@@ -106,14 +107,14 @@ Section Refine.
     - (* rem *)
       assert (Hi0 := Hi). destruct Hi as (Hs & Hb & Hn).
       destruct (descend K V cmp (root K V t) k []) as [x p'] eqn:Hd.
-      pose proof (rem_spec K V cmp cmp_eq cmp_refl cmp_anti cmp_trans _ _ _ _ Hs Hd) as Hr.
+      pose proof (rem_spec K V cmp use_succ cmp_eq cmp_refl cmp_anti cmp_trans _ _ _ _ Hs Hd) as Hr.
       destruct x as [|c l k0 v0 r].
       + fold (abs t) in Hr. rewrite Hr. simpl. split; [exact Hi0|split; reflexivity].
       + destruct Hr as (Hg & Hr). fold (abs t) in Hg.
         destruct (a_get (abs t) k) eqn:Hga; [|congruence].
         destruct (foc_root K V _ Hb) as (n0 & Hf).
         destruct (descend_foc K V cmp _ _ _ _ _ _ Hf Hd) as (m & Hm).
-        destruct (rem_at_valid K V _ _ _ _ _ _ _ Hm) as (r1 & Hr1 & Hv1).
+        destruct (rem_at_valid K V use_succ _ _ _ _ _ _ _ Hm) as (r1 & Hr1 & Hv1).
         rewrite Hr1. simpl. destruct (Hr r1 Hr1) as (Hi1 & Hl1).
         unfold rb_inv, abs in *. simpl. split; [|split; [exact Hi1|reflexivity]].
         split; [rewrite Hi1; apply sorted_a_rem; auto|]. split; [exact Hv1|].
@@ -145,9 +146,9 @@ Section Refine.
 
   (* ------------------------------------------------------------ whole histories *)
   Theorem run_refines : forall ops t, rb_inv t ->
-    rb_inv (t_run K V cmp ops t) /\
-    abs (t_run K V cmp ops t) = spec_run K V cmp ops (abs t) /\
-    t_outs K V cmp ops t = spec_outs K V cmp ops (abs t).
+    rb_inv (t_run K V cmp use_succ ops t) /\
+    abs (t_run K V cmp use_succ ops t) = spec_run K V cmp ops (abs t) /\
+    t_outs K V cmp use_succ ops t = spec_outs K V cmp ops (abs t).
   Proof.
     induction ops as [|o ops IH]; intros t Hi; simpl.
     - auto.
@@ -228,24 +229,25 @@ Qed.
 Section Statements.
   Variables K V : Type.
   Variable cmp : K -> K -> comparison.
+  Variable use_succ : bool -> bool -> bool.   (* Tree_Rem's donor rule: arbitrary *)
   Hypothesis TO : total_order cmp.
 
   Let t0 := t_empty K V.
 
   Theorem step_refines_total : forall t o, rb_inv K V cmp t ->
-    rb_inv K V cmp (fst (t_step K V cmp t o)) /\
-    abs K V (fst (t_step K V cmp t o)) = fst (spec_step K V cmp (abs K V t) o) /\
-    snd (t_step K V cmp t o) = snd (spec_step K V cmp (abs K V t) o).
+    rb_inv K V cmp (fst (t_step K V cmp use_succ t o)) /\
+    abs K V (fst (t_step K V cmp use_succ t o)) = fst (spec_step K V cmp (abs K V t) o) /\
+    snd (t_step K V cmp use_succ t o) = snd (spec_step K V cmp (abs K V t) o).
   Proof. destruct TO as (H1 & H2 & H3 & H4). apply step_refines; assumption. Qed.
 
   Theorem refines_total : forall ops,
-    rb_inv K V cmp (t_run K V cmp ops t0) /\
-    abs K V (t_run K V cmp ops t0) = spec_run K V cmp ops [] /\
-    t_outs K V cmp ops t0 = spec_outs K V cmp ops [] /\
-    ~ In (OCrash V) (t_outs K V cmp ops t0) /\ ~ In (OFuel V) (t_outs K V cmp ops t0).
+    rb_inv K V cmp (t_run K V cmp use_succ ops t0) /\
+    abs K V (t_run K V cmp use_succ ops t0) = spec_run K V cmp ops [] /\
+    t_outs K V cmp use_succ ops t0 = spec_outs K V cmp ops [] /\
+    ~ In (OCrash V) (t_outs K V cmp use_succ ops t0) /\ ~ In (OFuel V) (t_outs K V cmp use_succ ops t0).
   Proof.
     destruct TO as (H1 & H2 & H3 & H4). intros ops.
-    destruct (run_refines K V cmp H1 H2 H3 H4 ops t0 (rb_inv_empty K V cmp)) as (Hi & Ha & Ho).
+    destruct (run_refines K V cmp use_succ H1 H2 H3 H4 ops t0 (rb_inv_empty K V cmp)) as (Hi & Ha & Ho).
     split; [exact Hi|]. split; [exact Ha|]. split; [exact Ho|]. rewrite Ho. apply spec_outs_total.
   Qed.
 
@@ -267,9 +269,16 @@ Section Statements.
     eapply rb_search_depth; eauto.
   Qed.
 
+  Theorem empty_tests_agree : forall t, rb_inv K V cmp t -> (nitems K V t = 0 <-> root K V t = E).
+  Proof.
+    intros t (Hs & Hb & Hn). rewrite Hn. unfold abs. destruct (root K V t); simpl.
+    - tauto.
+    - rewrite app_length. simpl. split; [lia | discriminate].
+  Qed.
+
   (* after ANY history: the observations of the tree are those of the ordered map *)
   Theorem history_observations_total : forall ops,
-    let t := t_run K V cmp ops t0 in
+    let t := t_run K V cmp use_succ ops t0 in
     let m := spec_run K V cmp ops [] in
     nitems K V t = length m /\
     iter_forward K V t = Ok (keys K V m) /\
